@@ -22,7 +22,9 @@ Unannotated == R("rej", 0, 0, "", FALSE, "")
 
 E(c, a) == [c |-> c, a |-> a]
 
-Chunks(b) == CASE b = "empty" -> <<>> [] b = "big" -> <<65535, 4465>> [] OTHER -> <<7>>
+(* the body as the chunks of at most 65535 bytes the milter protocol carries; an "unreadable" body is a buffer *)
+(* whose Open fails (a local I/O error of the server, e.g. a spool file that cannot be read)                *)
+Chunks(b) == CASE b \in {"empty", "unreadable"} -> <<>> [] b = "big" -> <<65535, 4465>> [] OTHER -> <<7>>
 
 TlsName(t) == CASE t = "1.0" -> "TLSv1" [] t = "1.1" -> "TLSv1.1" [] t = "1.2" -> "TLSv1.2" [] OTHER -> "TLSv1.3"
 Cipher(t) == IF t = "1.3" THEN "TLS_AES_128_GCM_SHA256" ELSE "TLS_ECDHE_RSA_WITH_AES_128_GCM_SHA256"
